@@ -80,23 +80,20 @@ func (v *Vue) evalTemplate(ctx VueContext, nodes []*html.Node, componentData map
 			}
 		}
 
-		// Evaluate v-html if attribute is provided
-		if err := v.evalVHtml(ctx, nodes[0]); err != nil {
-			return nil, err
-		}
-
-		// Check if v-html was evaluated (internal attribute set)
-		hasVHtml := false
-		for _, attr := range node.Attr {
-			if attr.Key == "data-v-html-content" {
-				hasVHtml = true
-				break
+		// Evaluate v-html if attribute is provided - on a copy: the tag may be evaluated again
+		// (slot content used twice, a loop), and the same node must not appear twice in the output
+		if helpers.HasAttr(node, "v-html") {
+			clone := helpers.ShallowCloneWithAttrs(node)
+			if err := v.evalVHtml(ctx, clone); err != nil {
+				return nil, err
 			}
-		}
 
-		// If v-html was evaluated, return the template node for rendering to output its content
-		if hasVHtml {
-			return nodes, nil
+			// If v-html was evaluated (internal attribute set), return the copy for rendering to output its content
+			for _, attr := range clone.Attr {
+				if attr.Key == "data-v-html-content" {
+					return []*html.Node{clone}, nil
+				}
+			}
 		}
 
 		// Evaluate attributes and set them in current scope
